@@ -7,7 +7,7 @@ what every executed step must receive, and which workflow results are allowed.
 Schedule-dependent freedom is expressed with pattern nodes (Maybe, Choice, ANYSTR) that
 `match(pattern, actual)` understands.
 """
-from .model import (Lit, In, Ref, Call, Bin, Not, Expr, OneOf, OrDisabled, Opt, Program, Step)
+from .model import (Lit, In, Ref, Call, Bin, Not, Expr, OneOf, OrDisabled, Opt, Program, Step, node_refs, walk_tree)
 
 AVAIL, IMPOSSIBLE, PENDING = "avail", "impossible", "pending"
 
@@ -21,6 +21,10 @@ class Unavail(Exception):
 
 class EvalFault(Exception):
     """The expression cannot be evaluated although its dependencies exist (run-time evaluation failure)."""
+
+
+class Unmodelled(Exception):
+    """The reference does not interpret this construct: no verdict about values that depend on it."""
 
 
 class _Any:
@@ -241,6 +245,7 @@ class RefSem:
         self.input = input_value
         self.states = {}
         self.busy = set()
+        self.step_faults = {}  # step -> why a stage input of it cannot be evaluated although everything it refers to exists
 
     # ------------------------------------------------------------ expression evaluation
     def eval_node(self, n):
@@ -297,6 +302,13 @@ class RefSem:
                 return l - r
             if n.op == "*":
                 return l * r
+            if n.op == "/":
+                if r == 0:
+                    raise EvalFault("division by zero")
+                if isinstance(l, int) and isinstance(r, int):
+                    q = abs(l) // abs(r)
+                    return q if (l >= 0) == (r >= 0) else -q
+                return l / r
             if n.op == ">":
                 return l > r
             if n.op == "<":
@@ -305,7 +317,7 @@ class RefSem:
                 return l >= r
             if n.op == "<=":
                 return l <= r
-            raise EvalFault("operator %s not modelled" % n.op)
+            raise Unmodelled("operator %s" % n.op)
         if isinstance(n, Call):
             args = [self.eval_node(a) for a in n.args]
             if n.fn == "intToString":
@@ -325,7 +337,7 @@ class RefSem:
                 return float(args[0])
             if n.fn == "bindConstants":
                 return [{"item": it, "constant": args[1]} for it in args[0]]
-            raise EvalFault("function %s not modelled" % n.fn)
+            raise Unmodelled("function %s" % n.fn)
         raise TypeError(n)
 
     def eval_tree(self, t):
@@ -372,9 +384,35 @@ class RefSem:
 
     def avail(self, t):
         try:
-            return AVAIL, self.eval_tree(t)
+            return AVAIL, self.eval_tree_strict(t)
         except Unavail as u:
             return u.kind, None
+
+    def eval_tree_strict(self, t):
+        """eval_tree, but an evaluation fault only stands if everything the tree requires was produced
+        (the engine evaluates a node only once all its dependencies are resolved)."""
+        try:
+            return self.eval_tree(t)
+        except EvalFault:
+            worst = []
+
+            def visit(m, _path):
+                if isinstance(m, Expr):
+                    for r in node_refs(m.node):
+                        if isinstance(r, Ref):
+                            try:
+                                self.eval_node(Ref(r.step, r.stage, r.output))
+                            except Unavail as u:
+                                worst.append(u)
+                            except EvalFault:
+                                pass
+            walk_tree(t, visit)
+            for u in worst:
+                if u.kind == IMPOSSIBLE:
+                    raise u
+            if worst:
+                raise worst[0]
+            raise
 
     # ------------------------------------------------------------ steps
     def state(self, name):
@@ -384,7 +422,18 @@ class RefSem:
             raise RuntimeError("cyclic program at step " + name)
         self.busy.add(name)
         s = self.p.step(name)
-        st = self._plugin(s) if s.kind == "plugin" else self._foreach(s)
+        try:
+            st = self._plugin(s) if s.kind == "plugin" else self._foreach(s)
+        except EvalFault as e:
+            # a stage input of this step cannot be evaluated: the engine ends the whole run with an error
+            self.step_faults[name] = str(e)
+            st = StepState(name)
+            st.why = "stage input cannot be evaluated: %s" % e
+            st.set_all(PLUGIN_OUTS if s.kind == "plugin" else FOREACH_OUTS, IMPOSSIBLE)
+        except Unmodelled as e:
+            st = StepState(name)
+            st.why = "not interpreted by the reference: %s" % e
+            st.set_all(PLUGIN_OUTS if s.kind == "plugin" else FOREACH_OUTS, "unknown")
         self.busy.discard(name)
         self.states[name] = st
         return st
@@ -586,15 +635,20 @@ class RefSem:
 
     # ------------------------------------------------------------ whole run
     def result(self):
-        av, pend, imp, fault = {}, [], [], {}
+        av, pend, imp, fault, unmod = {}, [], [], {}, []
+        self.all_states()
+        for name, why in self.step_faults.items():
+            fault["step:" + name] = why
         for oid, tree in self.p.outputs.items():
             try:
-                av[oid] = self.eval_tree(tree)
+                av[oid] = self.eval_tree_strict(tree)
             except Unavail as u:
                 (pend if u.kind == PENDING else imp).append(oid)
             except EvalFault as e:
                 fault[oid] = str(e)
-        return {"avail": av, "pending": pend, "impossible": imp, "fault": fault}
+            except Unmodelled as e:
+                unmod.append(oid)
+        return {"avail": av, "pending": pend, "impossible": imp, "fault": fault, "unmodelled": unmod}
 
     def all_states(self):
         return {s.name: self.state(s.name) for s in self.p.steps}
